@@ -24,7 +24,7 @@ func registerMore(add func(PropDef)) {
 	add(PropDef{ID: "C19", Level: "other", Suites: func() []Suite { return suiteC19(nil) },
 		Rule: "2-3 accepted texts (printed or randomly laid out, deliberately reusing variable names and ellipses) joined by separators (nothing, blanks, line breaks, comments): same messages in order as parsing each alone, no errors; compared with the Lean model"})
 	add(PropDef{ID: "C07", Suites: func() []Suite { return suiteC07(nil) },
-		Rule: "byte strings decoded in an isolated worker process (8 GiB address-space limit, 30 s watchdog) with runtime.MemStats.TotalAlloc measured per call: short inputs declaring huge lengths for all 14 formats x 1/2/3 length bytes x nesting depths 0..100 (thorough ..1000) x three tails; chains of list headers declaring huge counts; valid messages, their structured corruptions, random bytes; 1 KB / 64 KB / 1 MB strings complete and truncated; bound checked: allocated <= 4096*len + 65536; inputs up to 4 KB are also compared with the Lean decoder"})
+		Rule: "byte strings decoded in an isolated worker process (8 GiB address-space limit, 30 s watchdog) with runtime.MemStats.TotalAlloc measured per call: short inputs declaring huge lengths for all 14 formats x 1/2/3 length bytes x nesting depths 0..100 (thorough ..1000) x three tails; chains of list headers declaring huge counts; valid messages, their structured corruptions, random bytes; 1 KB / 64 KB / 1 MB strings complete and truncated; bound checked: allocated <= 1024*len + 65536 (worst measured on the unchanged tree: 324 B per input byte); inputs up to 4 KB are also compared with the Lean decoder"})
 	add(PropDef{ID: "C11", Level: "proof", Suites: func() []Suite { return suiteC11(nil) },
 		Rule: "random histories (10-60 steps) over a growing pool of items, data messages and control messages: factories fed caller-held slices that are overwritten afterwards, producers, accessors and encoders whose results are overwritten or sorted, fills whose map is overwritten, responses built from pooled requests, decoding from a buffer with spare capacity that is then overwritten, SML parsing; after every step every pooled object is compared with its first snapshot (String, ToBytes, Variables, Size, header accessors)"})
 	add(PropDef{ID: "C17", Level: "other", Suites: func() []Suite { return suiteC17(nil) },
